@@ -619,7 +619,8 @@ impl BranchNodeBuilder {
 
             let base_prefix_start = BRANCH_NODE_HEADER_SIZE + base.n() as usize * 2;
             let start = base_prefix_start + bytes_to_skip;
-            let byte_len = (((bit_prefix_len_difference as usize) + 7) / 8).next_multiple_of(8);
+            let byte_len = ((prefix_bit_start + bit_prefix_len_difference as usize + 7) / 8)
+                .next_multiple_of(8);
 
             Some((start, start + byte_len, prefix_bit_start))
         } else {
@@ -637,7 +638,7 @@ impl BranchNodeBuilder {
 
             let RawSeparatorsData {
                 start: mut base_separator_bytes_start,
-                byte_len: base_separator_bytes_len,
+                byte_len: mut base_separator_bytes_len,
                 bit_start: mut base_separator_bit_start,
                 bit_len: base_separator_bit_len,
             } = base.view().raw_separators_data(base_index, base_index + 1);
@@ -684,6 +685,13 @@ impl BranchNodeBuilder {
                     &mut base_separator_bytes_start,
                 );
                 bit_len = separator_bit_len;
+                // `bitwise_memcpy` expects the smallest multiple of 8 bytes that holds the bits
+                // which are left to copy after the skipped ones.
+                base_separator_bytes_len = if bit_len == 0 {
+                    0
+                } else {
+                    ((base_separator_bit_start + bit_len + 7) / 8).next_multiple_of(8)
+                };
             }
 
             bitwise_memcpy(
